@@ -328,7 +328,11 @@ func runPath(c *cfg, path []uint16) (uint64, explore.Status) {
 			return 0, explore.StStop
 		}
 	}
-	return explore.Hash(p.t.Dump()), explore.StOK
+	// the emulator's own state is part of the key as well: two emulators that look like the same reference
+	// terminal but differ in something the comparison does not show (saved cursors, flags) have different futures
+	snap := p.m.VerifSnapshot()
+	snap.Dirty, snap.Focused, snap.EventsLen, snap.TabStops = false, false, 0, nil
+	return explore.Hash(p.t.Dump(), fmt.Sprintf("%+v", snap)), explore.StOK
 }
 
 func main() {
